@@ -67,17 +67,34 @@ func verifStub_ClientDo(c *http.Client, req *http.Request) (*http.Response, erro
 	if err != nil {
 		return nil, err
 	}
-	return &http.Response{StatusCode: code, Body: io.NopCloser(bytes.NewReader(body))}, nil
+	return &http.Response{StatusCode: code, Body: io.NopCloser(bytes.NewReader(body)), Header: make(http.Header), Request: req}, nil
+}
+
+// verifRoundTripper is the native twin of the Client.Do stub (real net/http, in-process transport).
+type verifRoundTripper struct{}
+
+func (verifRoundTripper) RoundTrip(req *http.Request) (*http.Response, error) {
+	return verifStub_ClientDo(nil, req)
 }
 
 // playlists travel as a tag; the text layer is C14/C15's subject
 func verifPlaylistBlob(p playlist.Playlist) []byte {
+	if !verifSymbolic() {
+		b, _ := p.Marshal()
+		return b
+	}
 	verifPlaylists = append(verifPlaylists, p)
 	i := len(verifPlaylists) - 1
 	return []byte{'#', 'L', byte(i), byte(i >> 8)}
 }
 
 func verifStub_PlaylistUnmarshal(byts []byte) (playlist.Playlist, error) {
+	if len(byts) == 4 && byts[0] == '#' && byts[1] == 'M' { // served by a muxer of the same run
+		return verifMediaLog[int(byts[2])|int(byts[3])<<8], nil
+	}
+	if len(byts) == 4 && byts[0] == '#' && byts[1] == 'V' {
+		return verifMultiLog[int(byts[2])|int(byts[3])<<8], nil
+	}
 	if len(byts) != 4 || byts[0] != '#' || byts[1] != 'L' {
 		return nil, &verifHTTPError{"not a playlist"}
 	}
